@@ -28,10 +28,15 @@ C07 == INSTANCE Mon_C07 WITH MCfg <- MCfgV
 C11 == INSTANCE Mon_C11 WITH MCfg <- MCfgV
 C12 == INSTANCE Mon_C12 WITH MCfg <- MCfgV
 C13 == INSTANCE Mon_C13 WITH MCfg <- MCfgV
+C08 == INSTANCE Mon_C08 WITH MCfg <- MCfgV
+C09 == INSTANCE Mon_C09 WITH MCfg <- MCfgV
+C17 == INSTANCE Mon_C17 WITH MCfg <- MCfgV
 
-MonInit == [c06 |-> C06!Init, c07 |-> C07!Init, c11 |-> C11!Init, c12 |-> C12!Init, c13 |-> C13!Init]
+MonInit == [c06 |-> C06!Init, c07 |-> C07!Init, c11 |-> C11!Init, c12 |-> C12!Init, c13 |-> C13!Init,
+            c08 |-> C08!Init, c09 |-> C09!Init, c17 |-> C17!Init]
 MonStep(Mo, st) == [c06 |-> C06!Step(Mo.c06, st), c07 |-> C07!Step(Mo.c07, st), c11 |-> C11!Step(Mo.c11, st),
-                    c12 |-> C12!Step(Mo.c12, st), c13 |-> C13!Step(Mo.c13, st)]
+                    c12 |-> C12!Step(Mo.c12, st), c13 |-> C13!Step(Mo.c13, st),
+                    c08 |-> C08!Step(Mo.c08, st), c09 |-> C09!Step(Mo.c09, st), c17 |-> C17!Step(Mo.c17, st)]
 
 \* ---------------------------------------------------------------- message alphabet
 Hosts == Peers \cup {"x.r9"}
@@ -70,6 +75,11 @@ Acts ==
   (IF Pairs THEN UNION {{[a |-> "feed", c |-> c, ms |-> <<m1, m2>>] : m1 \in {x \in Msgs(c) : x.cmd = "CE"}, m2 \in {x \in Msgs(c) : x.cmd \in {"APP", "DW"} /\ x.req}}
                         : c \in {x \in ConnIds : Usable(x)}} ELSE {}) \cup
   (IF Faults THEN UNION {{[a |-> "peer_close", c |-> c], [a |-> "peer_reset", c |-> c]} : c \in {x \in ConnIds : Usable(x)}} ELSE {}) \cup
+  \* an application answers a request it holds (or, with "resub", answers one a second time)
+  {[a |-> "submit", app |-> S.held[j].a, c0 |-> S.held[j].c,
+    m |-> Mk("APP", S.held[j].m.code, FALSE, S.held[j].m.hbh, S.held[j].m.e2e, S.held[j].m.app,
+             IF S.held[j].m.typed THEN NodeCfg.host ELSE "", "", IF S.held[j].m.typed THEN 2001 ELSE 0, FALSE, S.held[j].m.typed, FALSE, <<>>, <<>>, FALSE)]
+     : j \in {k \in 1..Len(S.held) : ~S.held[k].answered \/ "resub" \in Alpha}} \cup
   UNION {{[a |-> "connect_result", c |-> c, err |-> e] : e \in (IF Faults THEN {0, 111} ELSE {0})}
          : c \in {x \in ConnIds : S.conn[x].used /\ S.conn[x].connecting /\ S.conn[x].sock = "open"}}
 
@@ -96,6 +106,9 @@ Inv07 == S.overflow \/ Sigs(M.c07.viol) \subseteq Known
 Inv11 == S.overflow \/ Sigs(M.c11.viol) \subseteq Known
 Inv12 == S.overflow \/ Sigs(M.c12.viol) \subseteq Known
 Inv13 == S.overflow \/ Sigs(M.c13.viol) \subseteq Known
+Inv08 == S.overflow \/ Sigs(M.c08.viol) \subseteq Known
+Inv09 == S.overflow \/ Sigs(M.c09.viol) \subseteq Known
+Inv17 == S.overflow \/ Sigs(M.c17.viol) \subseteq Known
 \* the atomic step always reaches quiescence within the bound of Quiesce
 Quiescent == ~AnyEnabled(S)
 NoOverflow == ~S.overflow
